@@ -240,6 +240,10 @@ func solveAll(obls []*Obligation, o *checkOpts) {
 	var wg sync.WaitGroup
 	sem := make(chan struct{}, o.jobs)
 	for _, ob := range obls {
+		if ob.Ungenerated != "" {
+			ob.Res = SolverResult{Status: "unknown", Solver: "not-generated", Output: ob.Ungenerated}
+			continue
+		}
 		if ob.Trivial {
 			ob.Res = SolverResult{Status: "unsat", Solver: "trivial"}
 			if ob.ByHyp {
